@@ -4,6 +4,7 @@ from ..runner import Prop, Stage, Result
 
 PROFILE = dict(reuse=0.6, weights=dict(newer=4, delete=14, bind=14, message=50, server_event=8, sync=6, enum=8))
 MALFORMED = ['(', 'a.b.c', '[x', 'x ! y ! z', 'wl_a@5', 'a(b)c', 'x, (', '! [', '5zz9.']
+EXOTIC = ['é', 'Ω', 'ü', '٣', '²', 'ⅷ', 'ß', 'я', '字', '\u00a0', '\u200b', 'İ']
 
 
 def atom_text(d, g):
@@ -47,7 +48,19 @@ class Sequences(Stage):
             k = d.weighted([(1, 'star'), (1, 'bang'), (2, 'bad'), (7, 'alts'), (6, 'excl'), (1, 'star+'), (5, 'both')])
             if k == 'star': cmds.append(dict(raw='*'))
             elif k == 'bang': cmds.append(dict(raw='!'))
-            elif k == 'bad': cmds.append(dict(raw=d.choice(MALFORMED), malformed=True))
+            elif k == 'bad':
+                if d.chance(0.5):
+                    cmds.append(dict(raw=d.choice(MALFORMED), malformed=True))
+                else:
+                    # a well-formed alternative with a character outside ASCII put somewhere into it: accepted or reported, never anything else
+                    t = atom_text(d, g)
+                    pos = d.int(0, len(t))
+                    if d.chance(0.5):
+                        import re as _re
+                        ends = [mm.end() for mm in _re.finditer(r'\d+', t)]
+                        if ends:
+                            pos = d.choice(ends)      # directly after a number (an object id, an integer value)
+                    cmds.append(dict(raw=t[:pos] + d.choice(EXOTIC) + t[pos:], maybe=True))
             elif k == 'alts': cmds.append(dict(alts=[atom_text(d, g) for _ in range(d.int(1, 3))], excl=[]))
             elif k == 'excl': cmds.append(dict(alts=[], excl=[atom_text(d, g) for _ in range(d.int(1, 2))]))
             elif k == 'star+': cmds.append(dict(alts=['*'] + [atom_text(d, g) for _ in range(d.int(0, 1))], excl=[atom_text(d, g) for _ in range(d.int(0, 1))]))
@@ -103,7 +116,49 @@ class Sequences(Stage):
                 s.ctl.display_matcher = a.filter_matcher
             else:
                 s.ctl.stop_matcher = a.stop_matcher
-        s.run([['line', wire.render(m, 'new')] for m in case['specs']])
+        specs = case['specs']
+        tail = min(8, len(specs) // 3)
+        lines = [['line', wire.render(m, 'new')] for m in specs]
+        state = {}
+
+        def phase(sess, text):
+            state['ran'] = True
+            self.commands_phase(case, s, res, first, init, state)
+        s.run_command = lambda text: phase(s, text)
+        segs = s.run(lines[:len(specs) - tail] + [['cmd', '(the filter / breakpoint commands of the case)']] + lines[len(specs) - tail:])
+        if not state.get('ran'):
+            raise RuntimeError('command phase did not run')
+        # the messages that arrive afterwards: shown iff the accumulated filter selects them, "Stopped at" iff the accumulated breakpoint does
+        if state.get('models') is not None:
+            from core.util import no_color
+            models, parsed = state['models'], state['parsed']
+            allm = s.messages()
+            k = len(specs) - tail
+            for seg, m in zip([g for g in segs if g.kind == 'line'][k:], allm[k:]):
+                out = seg.out_lines()
+                shown = any(session.MSG_LINE.match(l) for l in out)
+                stopped = any(l.startswith('    Stopped at ') for l in out)
+                for what, got, w in (('shown', shown, 'filter'), ('stopped-at', stopped, 'breakpoint')):
+                    exp = models[w].expect(parsed, m)
+                    res.evals += 1
+                    if exp is not None and exp != got:
+                        res.bad('live:%s-%s' % (what, 'missing' if exp else 'unexpected'), 'after the commands %r, %s arrived: %s=%r, accumulated %s alternatives %r exclusions %r star=%r const=%r' % (
+                            [(x.get('which', first)[0] + ': ' + self.text_of(x)) for x in case['cmds']], no_color(str(m)), what, got, w, models[w].P, models[w].N, models[w].star, models[w].const))
+                    elif exp is not None:
+                        res.count('live-' + what + '-checked')
+        res.nontrivial = state.get('nontrivial', False)
+        res.label(which0)
+        if any(c.get('malformed') for c in case['cmds']): res.label('malformed-command')
+        if any(c.get('maybe') for c in case['cmds']): res.label('non-ascii-in-matcher')
+        if any(c.get('raw') == '*' or '*' in c.get('alts', []) for c in case['cmds']): res.label('star-alternative')
+        if any(c.get('raw') == '!' for c in case['cmds']): res.label('bang-reset')
+        if case['initial']: res.label('initial-from-option')
+        res.sample = dict(which=which0, initial=init, commands=[(c.get('which', first) + ' ' + self.text_of(c)) for c in case['cmds']], messages=len(specs))
+        return res
+
+    def commands_phase(self, case, s, res, first, init, state):
+        from core import matcher
+        from core.util import no_color
         msgs = s.messages()
         models = dict(filter=Model(matcher, 'star'), breakpoint=Model(matcher, 'bang'))
         parsed = {}
@@ -140,6 +195,17 @@ class Sequences(Stage):
             cur = current(which)
             if [current(other).matches(m) for m in msgs] != other_before:
                 res.bad('command-changes-the-other-matcher', '`%s %s` changed what the %s matcher selects' % (which, text, other))
+            if c.get('maybe'):
+                if 'Failed to parse' in err:
+                    if [cur.matches(m) for m in msgs] != before:
+                        res.bad('malformed-changes-matcher', 'after `%s %s` the matcher selects differently' % (which, text))
+                    res.count('non-ascii-rejected')
+                    continue
+                res.count('non-ascii-accepted')
+                c = dict(c, alts=[text], excl=[])
+                if not ('!' not in text and ',' not in text):
+                    state['models'] = None      # not a single alternative any more: the model cannot follow
+                    return
             if c.get('malformed'):
                 if 'Failed to parse' not in err:
                     res.bad('malformed-not-reported', '%r: err=%r' % (text, err))
@@ -181,14 +247,8 @@ class Sequences(Stage):
                         break
             if 0 < sel < len(msgs):
                 mixed = True
-        res.nontrivial = ok_cmds >= 3 and excl_step is not None and alt_step is not None and excl_step != alt_step and mixed
-        res.label(which0)
-        if any(c.get('malformed') for c in case['cmds']): res.label('malformed-command')
-        if any(c.get('raw') == '*' or '*' in c.get('alts', []) for c in case['cmds']): res.label('star-alternative')
-        if any(c.get('raw') == '!' for c in case['cmds']): res.label('bang-reset')
-        if case['initial']: res.label('initial-from-option')
-        res.sample = dict(which=which0, initial=init, commands=[(c.get('which', first) + ' ' + self.text_of(c)) for c in case['cmds']], messages=len(msgs))
-        return res
+        state['nontrivial'] = ok_cmds >= 3 and excl_step is not None and alt_step is not None and excl_step != alt_step and mixed
+        state['models'], state['parsed'] = models, parsed
 
 
 class C12(Prop):
